@@ -72,7 +72,7 @@ def tagify(draw, fn):
             elif k == "try":
                 out.append(("try", conv(s[1]), [(a, b, conv(c)) for a, b, c in s[2]], conv(s[3]), conv(s[4])))
             elif k == "with":
-                out.append(("with", s[1], s[2], s[3], conv(s[4])))
+                out.append(("with", s[1], s[2], s[3], conv(s[4])) + tuple(s[5:]))
             else:
                 out.append(s)
         return out
